@@ -141,8 +141,24 @@ let run_history (ops : string list) : string =
       | _ -> raise (Model_fault "?bad-op")) ops;
   Buffer.contents mo ^ " | " ^ Buffer.contents so
 
+(* P <hex>: _dbus_decompose_path on raw bytes -> "<n>:<elem hex>,<elem hex>" | "!" (assertion) ;
+   specification side: the elements of the string if it is a valid object path, else "n/a" *)
+let hex_of (l : n list) = if l = [] then "-" else String.concat "" (List.map (fun b -> Printf.sprintf "%02x" (int_of_n b)) l)
+let bytes_of_hex (h : string) : n list =
+  let h = if h = "-" then "" else h in
+  List.init (String.length h / 2) (fun i -> n_of_int (int_of_string ("0x" ^ String.sub h (2 * i) 2)))
+let show_elems l = Printf.sprintf "%d:%s" (List.length l) (if l = [] then "-" else String.concat "," (List.map hex_of l))
+let run_decompose (args : string list) : string =
+  match args with
+  | [h] ->
+      let s = bytes_of_hex h in
+      let m = (match decompose s with Ok l -> show_elems l ^ ":" ^ hex_of (flatten l) | _ -> "!") in
+      let sp = if spec_path s then (let l = path_elements s in show_elems l ^ ":" ^ hex_of s) else "n/a" in
+      m ^ " | " ^ sp
+  | _ -> "?bad-args"
+
 let handlers : (string, string list -> string) Hashtbl.t = Hashtbl.create 8
 let reg name f = Hashtbl.replace handlers name f
 let () =
   let h ops = (try run_history ops with Model_fault m -> m) in
-  reg "c" h; reg "t" h
+  reg "c" h; reg "t" h; reg "P" run_decompose
